@@ -227,9 +227,10 @@ package nfs
 //@   ensures [H1-child] result2 == 0 ==> gilChild(result1, dfh, name) @C08 @C02
 //@   ensures [H1-parent] result2 == 0 ==> gilParent(result1, dfh) @C08 @C03
 //@   ensures [Fn6-status] result2 == 0 || result2 == 70 || result2 == 2 @C02
+//@   ensures [I6-dots] result2 == 0 ==> (len(result1) == 1 ==> isDot(name)) && (result1[0].Inum < 2 ==> isDot(name) || isDotDot(name)) @C04
 //@   loop 0 invariant nfsInv(nfs) && !muheld[base(nfs.shrinkst.mu)] && dirtyInv() && allocInv()
 //@   loop 0 invariant [idle] ip == nil ==> noLocks()
-//@   loop 0 invariant [found] ip != nil ==> txOpen(op) && allClean() && op.Fs == nfs.fsstate && gilChild(inodes, dfh, name) && gilParent(inodes, dfh)
+//@   loop 0 invariant [found] ip != nil ==> txOpen(op) && allClean() && op.Fs == nfs.fsstate && gilChild(inodes, dfh, name) && gilParent(inodes, dfh) && (len(inodes) == 1 ==> isDot(name)) && (inodes[0].Inum < 2 ==> isDot(name) || isDotDot(name))
 
 //@ spec (*Nfs).NFSPROC3_LOOKUP
 //@   props C01 C02 C03 C06 C08 C09 C10 C11 C14
@@ -239,4 +240,107 @@ package nfs
 //@   ensures [R2-durable] result.Status == 0 ==> lastst == 1 @C01
 //@   ensures [A1-aborted] result.Status != 0 ==> lastst == 3 || lastst == 4 @C09
 //@   ensures [H3-handle] result.Status == 0 ==> len(result.Resok.Object.Data) == 16 && le64(result.Resok.Object.Data, 0) == old(dnames)[fhIno(args.What.Dir)][args.What.Name] && uint64(result.Resok.Obj_attributes.Attributes.Fileid) == le64(result.Resok.Object.Data, 0) @C08 @C02
+//@   ensures [L2-quiet] rpcPost(nfs) @C03 @C06 @C14
+
+
+// F1 (C05), I3 (C04): dropping the last link frees the inode's blocks and the
+// inode itself in the same transaction.
+//@ spec (*Nfs).doDecLink
+//@   props C05 C04 C08 C10 C11 C14
+//@   requires nfsInv(nfs) && txOpen(op) && !muheld[base(nfs.shrinkst.mu)]
+//@   requires locked(ip) && inodeInv(ip) && validInum(ip.Inum)
+//@   allocates $TXALLOC, struct:struct{}
+//@   modifies ip.Nlink, ip.Kind, ip.Gen, ip.Size, ip.ShrinkSize, ip.blks[*], dirtyinum, wroteinum, abits, muheld, shrinker.ShrinkerSt.nthread, alloctxn.AllocTxn.allocBnums, []uint64@alloctxn.AllocTxn.allocBnums, alloctxn.AllocTxn.freeBnums, []uint64@alloctxn.AllocTxn.freeBnums, alloctxn.AllocTxn.freeInums, []uint64@alloctxn.AllocTxn.freeInums, buf.Buf.dirty, []uint8@buf.Buf.Data
+//@   ensures [F1-freed] old(ip.Nlink) == 1 ==> ip.Kind == 0 && ip.Gen == old(ip.Gen) + 1 && ip.Size == 0 @C05 @C08
+//@   ensures [F1-kept] old(ip.Nlink) != 1 ==> ip.Kind == old(ip.Kind) && ip.Gen == old(ip.Gen) && ip.Size == old(ip.Size) @C05
+//@   ensures [S1-synced] !dirtyinum[ip.Inum] && othersClean(ip) @C10
+//@   ensures txOpen(op) && inodeInv(ip) && muheld == old(muheld) && abits[theIalloc] == old(abits)[theIalloc]
+
+//@ spec (*Nfs).getAlloc
+//@   props C05 C06 C03 C08 C09 C11 C04
+//@   requires nfsInv(nfs) && txOpen(op) && noLocks() && op.Fs == nfs.fsstate && !muheld[base(nfs.shrinkst.mu)]
+//@   allocates $TXALLOC, $DIRALLOC
+//@   modifies $TXMODS, $FILEMODS, $DIRMODS, $SHRINKMODS
+//@   ensures [open] txOpen(result0) && allClean() && result0.Fs == nfs.fsstate && !muheld[base(nfs.shrinkst.mu)] @C09
+//@   ensures [H1-dir] result3 == 0 ==> result1 != nil && held[result1.Inum] && inodeInv(result1) && matches(result1, dfh) && result1.Kind != 0 && (result1.Kind == 2 ==> dirShape(result1) && dnames[result1.Inum][name] == 0) @C08 @C04
+//@   ensures [F6-fresh] result3 == 0 ==> result2 != nil && held[result2.Inum] && validInum(result2.Inum) && result2.Inum != result1.Inum && inodeInv(result2) && result2.Kind == kind && result2.Nlink == 1 && !result2.IsShrinking() && result2.Size == 0 && (result2.Dcache != nil ==> result2.Dcache.Lastoff & 127 == 0 && result2.Dcache.cache != nil) @C05 @C08
+//@   ensures [Fn6-status] result3 == 0 || result3 == 70 || result3 == 17 || result3 == 28 || result3 == 10006 @C02
+//@   loop 0 invariant nfsInv(nfs) && txOpen(op) && noLocks() && op.Fs == nfs.fsstate && !muheld[base(nfs.shrinkst.mu)]
+
+// Fn8 (C02), I3/I4/I5 (C04), H3 (C08): creation. On success the new name is
+// bound to a fresh, initialised inode whose handle and attributes are returned;
+// everything happens in the one open transaction.
+//@ spec (*Nfs).doCreate
+//@   props C02 C03 C04 C05 C06 C08 C09 C10 C11
+//@   requires rpcPre(nfs)
+//@   allocates $TXALLOC, $DIRALLOC
+//@   modifies $TXMODS, $FILEMODS, $DIRMODS, $SHRINKMODS, dnames, shrinker.ShrinkerSt.nthread
+//@   ensures [open] txOpen(op) && op.Fs == nfs.fsstate && !muheld[base(nfs.shrinkst.mu)] @C09
+//@   ensures [S1-clean] allClean() @C10
+//@   ensures [A2-rollback] forall i uint64 :: dirtyinum[i] ==> wroteinum[i] @C09
+//@   ensures [I4-illegal] (len(name) == 0 || isDot(name) || isDotDot(name)) ==> err != 0 @C04
+//@   ensures [Fn8-created] err == 0 ==> len(fh3.Data) == 16 && le64(fh3.Data, 0) != 0 && dnames[fhIno(dfh)][name] == le64(fh3.Data, 0) && uint64(fattr.Fileid) == le64(fh3.Data, 0) && fattr.Ftype == kind @C02 @C08
+//@   ensures [I5-wasabsent] err == 0 ==> old(dnames)[fhIno(dfh)][name] == 0 @C04
+//@   ensures [Fn6-status] err == 0 || err == 22 || err == 70 || err == 17 || err == 28 || err == 10006 || err == 5 @C02
+
+//@ spec (*Nfs).NFSPROC3_CREATE
+//@   props C01 C02 C03 C04 C05 C06 C08 C09 C10 C11 C14
+//@   requires rpcPre(nfs)
+//@   allocates $TXALLOC, $DIRALLOC, nfstypes.CREATE3res
+//@   modifies $TXMODS, $FILEMODS, $DIRMODS, $SHRINKMODS, dnames, shrinker.ShrinkerSt.nthread
+//@   ensures [R2-durable] result.Status == 0 ==> lastst == 1 @C01
+//@   ensures [A1-aborted] result.Status != 0 && result.Status != 10004 ==> lastst == 3 || lastst == 4 @C09
+//@   ensures [Fn6-exclusive] args.How.Mode == 2 ==> result.Status == 10004 && dnames == old(dnames) @C02
+//@   ensures [H3-handle] result.Status == 0 ==> result.Resok.Obj.Handle_follows && len(result.Resok.Obj.Handle.Data) == 16 && uint64(result.Resok.Obj_attributes.Attributes.Fileid) == le64(result.Resok.Obj.Handle.Data, 0) @C08 @C02
+//@   ensures [L2-quiet] rpcPost(nfs) @C03 @C06 @C14
+
+//@ spec (*Nfs).NFSPROC3_MKDIR
+//@   props C01 C02 C03 C04 C05 C06 C08 C09 C10 C11 C14
+//@   requires rpcPre(nfs)
+//@   allocates $TXALLOC, $DIRALLOC, nfstypes.MKDIR3res
+//@   modifies $TXMODS, $FILEMODS, $DIRMODS, $SHRINKMODS, dnames, shrinker.ShrinkerSt.nthread
+//@   ensures [R2-durable] result.Status == 0 ==> lastst == 1 @C01
+//@   ensures [A1-aborted] result.Status != 0 ==> lastst == 3 || lastst == 4 @C09
+//@   ensures [H3-handle] result.Status == 0 ==> result.Resok.Obj.Handle_follows && len(result.Resok.Obj.Handle.Data) == 16 && uint64(result.Resok.Obj_attributes.Attributes.Fileid) == le64(result.Resok.Obj.Handle.Data, 0) && result.Resok.Obj_attributes.Attributes.Ftype == 2 @C08 @C02
+//@   ensures [L2-quiet] rpcPost(nfs) @C03 @C06 @C14
+
+//@ spec (*Nfs).NFSPROC3_SYMLINK
+//@   props C01 C02 C03 C04 C05 C06 C08 C09 C10 C11 C14
+//@   requires rpcPre(nfs)
+//@   allocates $TXALLOC, $DIRALLOC, nfstypes.SYMLINK3res
+//@   modifies $TXMODS, $FILEMODS, $DIRMODS, $SHRINKMODS, dnames, shrinker.ShrinkerSt.nthread
+//@   ensures [R2-durable] result.Status == 0 ==> lastst == 1 @C01
+//@   ensures [A1-aborted] result.Status != 0 ==> lastst == 3 || lastst == 4 @C09
+//@   ensures [H3-handle] result.Status == 0 ==> result.Resok.Obj.Handle_follows && len(result.Resok.Obj.Handle.Data) == 16 && uint64(result.Resok.Obj_attributes.Attributes.Fileid) == le64(result.Resok.Obj.Handle.Data, 0) && result.Resok.Obj_attributes.Attributes.Ftype == 5 @C08 @C02
+//@   ensures [L2-quiet] rpcPost(nfs) @C03 @C06 @C14
+
+// Fn5/Fn6 (C02), F1/F7/F8 (C05), I3 (C04): removal.
+//@ spec (*Nfs).doRemove
+//@   props C02 C03 C04 C05 C06 C08 C09 C10 C11
+//@   requires rpcPre(nfs)
+//@   allocates $TXALLOC, $DIRALLOC, struct:struct{}
+//@   modifies $TXMODS, $FILEMODS, $DIRMODS, $SHRINKMODS, dnames, sortperm, shrinker.ShrinkerSt.nthread
+//@   ensures [open] txOpen(result0) && result0.Fs == nfs.fsstate && !muheld[base(nfs.shrinkst.mu)] @C09
+//@   ensures [S1-clean] allClean() @C10
+//@   ensures [A2-rollback] forall i uint64 :: dirtyinum[i] ==> wroteinum[i] @C09
+//@   ensures [I4-illegal] (len(name) == 0 || isDot(name) || isDotDot(name)) ==> result1 == 22 @C04 @C11
+//@   ensures [Fn5-removed] result1 == 0 ==> old(dnames)[fhIno(dfh)][name] != 0 && dnames[fhIno(dfh)][name] == 0 @C02
+//@   ensures [Fn6-status] result1 == 0 || result1 == 22 || result1 == 70 || result1 == 2 || result1 == 5 @C02
+
+//@ spec (*Nfs).NFSPROC3_REMOVE
+//@   props C01 C02 C03 C04 C05 C06 C08 C09 C10 C11 C14
+//@   requires rpcPre(nfs)
+//@   allocates $TXALLOC, $DIRALLOC, nfstypes.REMOVE3res, struct:struct{}
+//@   modifies $TXMODS, $FILEMODS, $DIRMODS, $SHRINKMODS, dnames, sortperm, shrinker.ShrinkerSt.nthread
+//@   ensures [R2-durable] result.Status == 0 ==> lastst == 1 @C01
+//@   ensures [A1-aborted] result.Status != 0 ==> lastst == 3 || lastst == 4 @C09
+//@   ensures [L2-quiet] rpcPost(nfs) @C03 @C06 @C14
+
+//@ spec (*Nfs).NFSPROC3_RMDIR
+//@   props C01 C02 C03 C04 C05 C06 C08 C09 C10 C11 C14
+//@   requires rpcPre(nfs)
+//@   allocates $TXALLOC, $DIRALLOC, nfstypes.RMDIR3res, struct:struct{}
+//@   modifies $TXMODS, $FILEMODS, $DIRMODS, $SHRINKMODS, dnames, sortperm, shrinker.ShrinkerSt.nthread
+//@   ensures [R2-durable] result.Status == 0 ==> lastst == 1 @C01
+//@   ensures [A1-aborted] result.Status != 0 ==> lastst == 3 || lastst == 4 @C09
 //@   ensures [L2-quiet] rpcPost(nfs) @C03 @C06 @C14
